@@ -75,8 +75,11 @@ PROPS["C11"] = {"units": ["nav"], "kani": [], "replay": [], "title": "Code-map o
 PROPS["C20"]["units"] = ["nav"]
 
 PROPS["C04"]["units"] = ["print", "roundtrip"]
-PROPS["C04"]["level_text"] = ("Compact printing, whole values, unbounded, in three machine-checked links over the SAME specification files: (1) unit print: `impl Display for Value` (and compact_print) writes ctext(v), and lemma_ctext_is_jtext: ctext(v) == jtext(view of v); (2) unit roundtrip (pure lemmas over the parser's and the printer's shared vocabularies): lemma_doc_roundtrip -- for every abstract value j whose numbers are JSON numbers, every assignment of byte lengths, every position, code map and option record, doc(items of jtext(j)) is Ok with value j (induction over arrays and objects: lemma_val_reads / lemma_items_reads / lemma_members_reads; numbers: lemma_number_reads; strings: lemma_str_reads -- decoding ANY input that starts with the printed literal gives the string back); (3) unit parse: Value::parse_str(s) is doc(utf8_items(s), ..) and returns a value whose view is doc's value. "
-    "For the other option records (pretty, inline, custom spacing): the printed text is specified and proved (value_ptext, C13) and string literals round-trip for every option record; that doc(value_ptext(v)) == v with whitespace and indentation is NOT proved (bounded stand-in).")
+PROPS["C04"]["level_text"] = ("EVERY option record (compact, inline, pretty, any custom indentation / spacing / limits), whole values, unbounded, in three machine-checked links over the SAME specification files: "
+    "(1) unit print: printing `v` under options `o` (`Printed`'s Display, print_with / pretty_print / inline_print / compact_print, `impl Display for Value`) writes value_ptext(v, o) (the documented layout, C13), and lemma_ptext_is_padded: value_ptext(v, o) == ptext(p) for the padded value p = vpad(v, o) with erase(p) == view of v and ONLY whitespace (spaces, tabs, line feeds) in p's slots -- the slots being exactly the places where RFC 8259 allows whitespace (inc/pad_spec.vrs); "
+    "(2) unit roundtrip (pure lemmas over the parser's and the printer's shared vocabularies): lemma_pdoc_roundtrip -- for every padded value p with whitespace-only slots whose numbers are JSON numbers, every assignment of byte lengths, every position, code map and parser option record, doc(items of ptext(p)) is Ok with value erase(p) (induction over arrays and objects: lemma_pval_reads / lemma_pitems_reads / lemma_pmembers_reads; leading whitespace: lemma_val_skip_ws; numbers: lemma_number_reads; strings: lemma_str_reads -- decoding ANY input that starts with the printed literal gives the string back); the compact case (lemma_doc_roundtrip over jtext, with lemma_ctext_is_jtext on the printer side) is kept as an independent second proof; "
+    "(3) unit parse: Value::parse_str(s) is doc(utf8_items(s), ..) and returns a value whose view is doc's value. "
+    "So formatting options only ever change insignificant whitespace, and parse(print(v, o)) denotes v, for all values and all option records.")
 PROPS["C04"]["level_note"] = _PRINT_NOTE + " Hypotheses of the round-trip theorem: the value's numbers are JSON numbers and ASCII (what json-number's NumberBuf holds; the parser's own numbers are, by its contract). The composition of the three links is by reading (they are stated over the same include files), not a single Verus theorem: the units have different stubs for the payload types."
 
 # bounded stand-ins (replay crate) run for every claimed property: they cover what is outside the
@@ -106,7 +109,7 @@ for _pid, _t in {
     "C01": _V + ": every parser function against RFC 8259 specification functions, Value::parse_in == doc" + _B + "the byte-slice / infallible entry points and termination of the main loop",
     "C02": _V + ": value clauses of the parser contracts, Indexes and Object queries == linear scan" + _B + "the byte-slice entry point",
     "C03": _V + ": no panic / overflow / bounds / termination side obligations of every parser function" + _B + "termination of the main loop and stack use (deep documents in child processes with a 256 KiB stack)",
-    "C04": _V + " and pure lemmas: Display for Value == compact text; doc(compact text of j) == j; parse_str == doc" + _B + "option records that print whitespace",
+    "C04": _V + " and pure lemmas: printer under any option record == text of the padded value (whitespace only where RFC 8259 allows it); doc(any such text) == the value; parse_str == doc" + _B + "to_string end to end (std blanket impl) over the option records of the quantifier",
     "C05": _V + ": code-map clauses (cm_begin / cm_end) of every fragment parser, final code map of Value::parse_in == doc's" + _B + "the byte-slice entry point",
     "C06": _V + ": list-model contracts on Indexes and every Object operation incl. the removal iterators" + _B + "the assumed IndexMap layer (operation histories vs the list model)",
     "C07": _V + ": Err branches of the parser contracts, error of Value::parse_in == doc's" + _B + "the byte-slice entry point",
